@@ -610,6 +610,10 @@ class ArcBasedRoutingProblem(RoutingProblem):
         """
         soln_var_indices = np.nonzero(solution)
         soln_var_indices = soln_var_indices[0]
+        if soln_var_indices.size == 0:
+            # nothing selected: no routes (a solution only if there is no customer to visit)
+            assert len(self.nodes) <= 1, "Solution does not obey node visitation constraints"
+            return []
         # Lexicographically sort the indices; all routes start from Depot (node index zero),
         # so sort the arcs so that those leaving the depot are first
         # Flip the tuples because np.lexsort sorts on last row, second to last row, ...
